@@ -65,6 +65,29 @@ fn check_one(re: &Regex, names: &[Option<String>], texts: &[String], pat: &str, 
     if cn != names {
         bad(acc, "capture_names", "", format!("{:?}", names), format!("{:?}", cn));
     }
+    {
+        // the names iterator driven in other ways than collect()
+        let n = want_len;
+        let cnt = re.capture_names().count();
+        let last = re.capture_names().last().map(|x| x.map(|s| s.to_string()));
+        let (lo, hi) = re.capture_names().size_hint();
+        if cnt != n || last != names.last().cloned() || lo > n || hi.map_or(false, |h| h < n) {
+            bad(acc, "capture_names().count() / .last() / .size_hint()", "", format!("{} / {:?} / bounds containing {}", n, names.last(), n), format!("{} / {:?} / ({}, {:?})", cnt, last, lo, hi));
+        }
+        for j in 0..=n {
+            let nth = re.capture_names().nth(j).map(|x| x.map(|s| s.to_string()));
+            if nth != names.get(j).cloned() {
+                bad(acc, &format!("capture_names().nth({})", j), "", format!("{:?}", names.get(j)), format!("{:?}", nth));
+            }
+        }
+        let mut it = re.capture_names();
+        for _ in 0..n {
+            it.next();
+        }
+        if it.next().is_some() || it.next().is_some() {
+            bad(acc, "capture_names(): next() after the end", "", "None".into(), "Some".into());
+        }
+    }
     let mut matched = false;
     for t in texts {
         acc.evals += 1;
@@ -242,7 +265,7 @@ pub fn run(ctx: &Ctx) -> Outcome {
     });
     let mut out = Outcome::new(acc);
     out.distinct_nontrivial = out.acc.distinct;
-    out.rule = format!("{}; every pattern with >= 1 group in three spellings (unnamed; all groups named with (?<gN>..) or (?P<gN>..) and named references; for reference-free patterns three partial naming layouts: every second group, only the last group, every third group) and for each the VM twin with an empty look-ahead appended; x {} texts. The generator knows the truth (group count, name of every index). Checked: captures_len, capture_names (length, each name at its index, index 0 unnamed), and on every successful search Captures::len = captures_len, iter() yields len() items equal to get(i) - driven by next() (and past the end), count, last, nth, skip(j).last(), skip(j).count(), size_hint -, name(n) = get(index of n), get(0) is Some, get(i) is None for i in len..len+3 and for i around usize::MAX/2 and usize::MAX, an unknown name gives None. Non-trivial: distinct patterns with >= 2 groups of which >= 1 named that matched on both routes.", sp.describe, texts.len());
+    out.rule = format!("{}; every pattern with >= 1 group in three spellings (unnamed; all groups named with (?<gN>..) or (?P<gN>..) and named references; for reference-free patterns three partial naming layouts: every second group, only the last group, every third group) and for each the VM twin with an empty look-ahead appended; x {} texts. The generator knows the truth (group count, name of every index). Checked: captures_len, capture_names (length, each name at its index, index 0 unnamed; also through count / last / nth / size_hint / next past the end), and on every successful search Captures::len = captures_len, iter() yields len() items equal to get(i) - driven by next() (and past the end), count, last, nth, skip(j).last(), skip(j).count(), size_hint -, name(n) = get(index of n), get(0) is Some, get(i) is None for i in len..len+3 and for i around usize::MAX/2 and usize::MAX, an unknown name gives None. Non-trivial: distinct patterns with >= 2 groups of which >= 1 named that matched on both routes.", sp.describe, texts.len());
     let (w, v) = (out.acc.get("patterns-matched:wrapped"), out.acc.get("patterns-matched:vm"));
     out.extra = json!({"patterns_matched": {"wrapped": w, "vm": v}});
     out.require(w > 0 && v > 0, "both routes must be exercised");
